@@ -88,6 +88,11 @@ type Conn struct {
 	stall          atomic.Bool   // writes block (peer not reading) until close or write deadline
 	stallWake      chan struct{} // closed on Close
 	stallOnce      sync.Once
+	// Writes are serialised like on a socket (one writer holds the descriptor's write lock; a second
+	// Write waits behind it, and that wait knows no deadline), and a blocked Write follows changes of
+	// the write deadline.
+	wsem       chan struct{} // capacity 1, created by NewConn
+	wdlChanged chan struct{} // closed and replaced by SetWriteDeadline (wmu)
 	stallCloseOnce sync.Once
 }
 
@@ -99,7 +104,7 @@ func (c *Conn) StallWrites() {
 }
 
 func NewConn() *Conn {
-	return &Conn{wake: make(chan struct{}), writeErrAt: -1, Local: "10.1.2.3:45678"}
+	return &Conn{wake: make(chan struct{}), writeErrAt: -1, Local: "10.1.2.3:45678", wsem: make(chan struct{}, 1), wdlChanged: make(chan struct{})}
 }
 
 // signal wakes blocked readers; rmu must be held.
@@ -251,19 +256,31 @@ func (c *Conn) Read(p []byte) (int, error) {
 
 func (c *Conn) Write(p []byte) (int, error) {
 	c.gate("write")
-	if c.stall.Load() && !c.closed.Load() {
+	if c.wsem != nil {
+		c.wsem <- struct{}{}
+		defer func() { <-c.wsem }()
+	}
+	for c.stall.Load() && !c.closed.Load() {
 		c.wmu.Lock()
 		dl := c.wdeadline
+		changed := c.wdlChanged
 		c.wmu.Unlock()
+		if !dl.IsZero() && !time.Now().Before(dl) {
+			break // reported as a timeout below
+		}
 		var timer <-chan time.Time
+		var t *time.Timer
 		if !dl.IsZero() {
-			t := time.NewTimer(time.Until(dl))
-			defer t.Stop()
+			t = time.NewTimer(time.Until(dl))
 			timer = t.C
 		}
 		select {
 		case <-c.stallWake:
 		case <-timer:
+		case <-changed:
+		}
+		if t != nil {
+			t.Stop()
 		}
 	}
 	c.wmu.Lock()
@@ -366,6 +383,10 @@ func (c *Conn) SetWriteDeadline(t time.Time) error {
 	}
 	c.wmu.Lock()
 	c.wdeadline = t
+	if c.wdlChanged != nil {
+		close(c.wdlChanged)
+		c.wdlChanged = make(chan struct{})
+	}
 	c.wmu.Unlock()
 	return nil
 }
